@@ -26,6 +26,12 @@ WITNESS_TEXTS = [
     'python_version > "3.8" or python_version not in "3.8, 3.10"',
     'python_version >= "3.7" and python_full_version < "4.0"',
     'python_version <= "3" or python_full_version < "3.5"',
+    # operands whose union is conjunctive with two clauses sharing one atom and contradicting on the rest once a variable is excluded
+    'os_name == "posix" and implementation_name == "cpython"',
+    'os_name == "posix" and ((sys_platform == "x" and extra != "e") or (sys_platform != "x" and extra == "e"))',
+    'os_name == "posix" and ((sys_platform == "x" and platform_machine != "b") or (sys_platform != "x" and platform_machine == "b"))',
+    '(os_name == "a" and sys_platform == "x") or (os_name == "a" and platform_machine == "b")',
+    '(os_name == "a" or sys_platform == "x") and (os_name == "a" or sys_platform != "x")',
 ]
 
 
@@ -147,6 +153,14 @@ def run(tier="quick", seed=0, arg=None):
                 group_pairs.append(((t, m), g))
     if tier == "quick":
         group_pairs = group_pairs[seed % 3:: 3]
+    # every pair of version atoms at the major / minor boundaries (their unions / intersections are the wildcard sets and the
+    # zero-padded python_full_version forms), both variables, always in full
+    vp = [f'{var} {op} "{v}"' for var in ("python_version", "python_full_version") for op in ("<", ">=") for v in ("3.0", "4.0", "3.8")]
+    vp += [f'{var} {op} "3.*"' for var in ("python_version", "python_full_version") for op in ("==", "!=")]
+    vp = [(t, parse_marker(t)) for t in vp]
+    group_pairs += [(x, y) for x in vp for y in vp]
+    W = [(t, m) for t, m in pool if t in set(WITNESS_TEXTS)]
+    group_pairs += [(x, y) for x in W for y in W]
     for i in range(npairs + len(group_pairs)):
         (ta, a), (tb, b) = group_pairs[i - npairs] if i >= npairs else (rng.choice(pool), rng.choice(pool))
         va, vb = vec(a), vec(b)
@@ -183,7 +197,16 @@ def run(tier="quick", seed=0, arg=None):
         except Exception as e:  # noqa: BLE001
             fail("C14.raises", {"a": ta, "b": tb, "c": tc}, repr(e), "no exception")
         # C12 on a and on a&b / a|b
-        for tm, m in ((ta, a),):
+        c12_on = [(ta, a)]
+        try:
+            with time_limit(LIMIT):
+                ab = a | b
+            # conjunctive results of `|` (a MultiMarker with a MarkerUnion member) are never produced by parse_marker: only()/exclude() must recurse into them
+            if isinstance(ab, MultiMarker) and any(isinstance(k, MarkerUnion) for k in ab.markers):
+                c12_on.append((f"({ta}) | ({tb})", ab))
+        except Exception:  # noqa: BLE001  (reported by the C02 part above)
+            pass
+        for tm, m in c12_on:
             vs = sorted(OM.variables(m))
             vm = vec(m)
             subsets = ([vs[:1], vs[1:], vs] if vs else [[]]) + [[ALL_VARIABLES[(i + j) % len(ALL_VARIABLES)] for j in range(2)] + vs[:1]]
